@@ -288,28 +288,41 @@ CLAIMED = {
 EXTRA = {
     "C01": "decoded values originate in extract_atomic_value (def-use), who-may-write the key "
            "tables, origin window (no positional call after the origin is restored), "
-           "conversion-guard shapes of the compu methods",
-    "C02": "origin window rule shared with C01",
-    "C03": "conversion-guard shapes of the compu methods",
-    "C04": "conversion-guard shapes of the compu methods; terminator-in-value, float32 range "
-           "and implicit UnicodeEncodeError sites",
+           "conversion-guard shapes of the compu methods, probe/restore must-pass-through on "
+           "the exception edges, keyed look-ups by caller-supplied names",
+    "C02": "origin window and probe/restore rules shared with C01",
+    "C03": "conversion-guard shapes of the compu methods; bytes-like acceptance of the "
+           "encoders' type tests",
+    "C04": "conversion-guard shapes of the compu methods; terminator-in-value (search "
+           "unconditional), float32 range, implicit UnicodeEncodeError and hash-of-value sites",
     "C05": "implicit-raise catalogue incl. numeric format specs and next() on filtered "
-           "generators; progress rule for cursor-driven item loops (termination)",
+           "generators; progress rule for cursor-driven item loops (termination); "
+           "who-may-read the PDU without a length guard",
     "C06": "candidate loops found by the call on the loop variable; prefix look-ups followed "
-           "through dicts / pairs; no de-duplication under an equality that ignores the service",
-    "C07": "conversion-guard shapes of the compu methods",
+           "through dicts / pairs; no de-duplication under an equality that ignores the "
+           "service; exception-escape analysis shared with C05",
+    "C07": "conversion-guard shapes of the compu methods; agreement of the python types "
+           "admitted by validity test and converter",
     "C08": "omission of an uncomputable SYSTEM parameter rejected centrally or locally",
     "C10": "type-test coverage of the retarget recursion; save/reset pairing of the consulted "
-           "SnRefContext fields on the CFG (must-pass-through)",
-    "C11": "exact integer conversion of A_INT32 / A_UINT32 texts",
+           "SnRefContext fields on the CFG (must-pass-through); derived fragment list handed "
+           "to every later sub-parser",
+    "C11": "exact integer conversion of A_INT32 / A_UINT32 texts; no fixed-precision number "
+           "formatting in template globals; document version independent of load history",
     "C12": "soundness conditions of a remembered channel index (dominance of the store by the "
            "successful lookup)",
     "C13": "no state update reachable after a yield; None-passing callback arguments vs. "
-           "numeric uses in every override",
-    "C15": "getattr defaults must not hide attributes that the raw class of a wrapper has",
+           "numeric uses in every override; consecutive-frame shape shared with C12",
+    "C14": "cache store independent of the response content; every pattern reaches its "
+           "parameter loop (must-pass-through)",
+    "C16": "__getattr__ raises only for names that are not items",
+    "C15": "getattr defaults must not hide attributes that the raw class of a wrapper has; "
+           "unfiltered merge stores; total look-up",
     "C17": "None-guard of codec names with a reachable `return None`; placeholder objects built "
-           "after odxraise vs. dereferences in __post_init__",
-    "C18": "short names are never tested against NamedItemList.keys()",
+           "after odxraise vs. dereferences in __post_init__; sibling agreement of the "
+           "codec-error handlers",
+    "C18": "short names are never tested against NamedItemList.keys(); the parameter comparison "
+           "is reached under length / position tests only",
 }
 COMMON = ("; shared over the property's scope: hidden-state rules (mutable defaults, memos keyed "
           "by name, lazily cached values ignoring an argument, memoised methods, indexes derived "
